@@ -113,10 +113,32 @@ class ValueChecker:
         c = copy.copy(fa)
         if not (c == fa) or c is fa or c.GetFraction() is fa.GetFraction():
             ctx.fail("copy_not_equal_or_shared", case, "copy.copy(%r) = %r (shares the fraction: %r)" % (fa, c, c.GetFraction() is fa.GetFraction()))
+        before_edit = float(c)
+        den_c = c.GetFraction().denominator  # read before the edit: the library reduces the fraction afterwards
+        num0 = c.GetNumber()
         c.GetFraction().numerator = 7
+        ctx.ev()
+        if not core.close(float(c), num0 + 7 / den_c, abs(num0) + 7.0, 1e-15):
+            ctx.fail("float_stale_after_editing_parts", case, "float() was %r, then the numerator was set to 7 in place (denominator %r, number %r): float() = %r" % (before_edit, den_c, num0, float(c)))
         c.SetNumber(99)
         if float(fa) != got:
             ctx.fail("copy_not_independent", case, "changing the copy changed the original %r" % fa)
+        # the parts are public and mutable: after editing them (in place or through the setters) float(), the order
+        # operators and the text all denote the new number + numerator/denominator
+        ctx.ev()
+        want_c = 99 + 7 / den_c
+        if not core.close(float(c), want_c, 106.0, 1e-15):
+            ctx.fail("float_stale_after_editing_parts", case, "float() was %r, then number := 99 and numerator := 7 (denominator %r): float() = %r, expected %r" % (before_edit, den_c, float(c), want_c))
+        c.number = 4
+        float(c)
+        c.GetFraction().denominator = 8
+        c.fraction.numerator = 3
+        ctx.ev()
+        if float(c) != 4.375 or not (c < FractionValue(4.5)) or not (c > FractionValue(4.25)) or str(c) != "4 3/8":
+            ctx.fail("float_stale_after_editing_parts", case, "after number := 4, fraction := 3/8: float() = %r, str() = %r" % (float(c), str(c)))
+        c.SetFraction((1, 2))
+        if float(c) != 4.5:
+            ctx.fail("float_stale_after_editing_parts", case, "after SetFraction((1,2)) on 4 3/8: float() = %r" % float(c))
         # equality is value based on the parts
         ctx.ev()
         if not (fa == self.make(a_spec)) or (fa != self.make(a_spec)):
